@@ -115,6 +115,23 @@ theorem last_pass_no_overlap (bbs : Array Rect) (dim : Dim) (i j : Nat) (wi hi w
   | none => exact pair_none_small_overlap bbs dim i j wi hi wj hj hp h1
   | some c => exact pair_some_separates bbs dim i j wi hi wj hj c a hp (hsat c hp) 0 (le_refl 0) h2
 
+-- non-vacuity of pair_none_small_overlap: two in-range unit squares far apart, no constraint
+example : nonOverlapPair #[⟨0, 1, 0, 1⟩, ⟨5, 6, 5, 6⟩] .x (.shape 0 (1/2) (1/2)) (.shape 1 (1/2) (1/2)) = none := by
+  decide +kernel
+
+-- non-vacuity of pair_some_separates / last_pass_no_overlap
+example : ∃ c a, nonOverlapPair #[⟨0, 2, 0, 2⟩, ⟨1, 3, 1, 3⟩] .x (.shape 0 1 1) (.shape 1 1 1) = some c ∧ Holds c a :=
+  ⟨{ left := 0, right := 1, gap := 1 + 1, eq := false }, fun i => if i = 0 then 0 else 2,
+   by decide +kernel, by simp [Holds]; norm_num⟩
+
+example : ¬ (Overlap1D overlapThreshold 0 2 1 3 ∧ Overlap1D 0 (0 - 1) (0 + 1) (2 - 1) (2 + 1)) :=
+  last_pass_no_overlap #[⟨0, 2, 0, 2⟩, ⟨1, 3, 1, 3⟩] .x 0 1 1 1 1 1 (fun i => if i = 0 then 0 else 2)
+    (by intro c hc
+        have : nonOverlapPair #[⟨0, 2, 0, 2⟩, ⟨1, 3, 1, 3⟩] .x (.shape 0 1 1) (.shape 1 1 1)
+            = some { left := 0, right := 1, gap := 1 + 1, eq := false } := by decide +kernel
+        rw [this] at hc; injection hc with hc; subst hc
+        simp [Holds]; norm_num)
+
 /-! ### cluster containment -/
 
 theorem containment_sound (v : Nat) (pMin pMax : Rat) (nodes : List (Nat × Rat)) (children : List (Nat × Rat × Rat))
@@ -139,6 +156,12 @@ theorem containment_sound (v : Nat) (pMin pMax : Rat) (nodes : List (Nat × Rat)
 
 example : AllHold (containmentSeps 2 1 1 [(0, 1)] []) (fun i => if i = 0 then 5 else if i = 2 then 0 else 10) := by
   intro c hc; simp [containmentSeps] at hc; rcases hc with rfl | rfl <;> simp [Holds] <;> norm_num
+
+-- non-vacuity of containment_sound with a child cluster (variables 4,5; margins 1,1) and a node
+example : AllHold (containmentSeps 2 1 1 [(0, 1)] [(4, 1, 1)])
+    (fun i => if i = 0 then 5 else if i = 2 then 0 else if i = 3 then 20 else if i = 4 then 8 else 12) := by
+  intro c hc; simp [containmentSeps] at hc
+  rcases hc with rfl | rfl | rfl | rfl <;> simp [Holds] <;> norm_num
 
 /-- with non-negative padding, a contained node's interval lies inside the cluster's box -/
 theorem containment_within (v : Nat) (pMin pMax : Rat) (nodes : List (Nat × Rat)) (children : List (Nat × Rat × Rat))
@@ -208,6 +231,14 @@ theorem sibling_no_overlap (v1 v2 : Nat) (p1Min p1Max p2Min p2Max gap : Rat)
   rintro ⟨lo, hi, hlen, _, h2, h3, _⟩
   linarith
 
+-- non-vacuity of sibling_disjoint / sibling_no_overlap: cluster 1 = vars 2,3 with node 0, cluster 2 = vars 4,5 with node 1
+example : ∃ a : Asg, AllHold (containmentSeps 2 1 1 [(0, 1)] []) a ∧ AllHold (containmentSeps 4 1 1 [(1, 1)] []) a ∧
+    Holds { left := 2 + 1, right := 4, gap := 2, eq := false } a :=
+  ⟨fun i => if i = 0 then 2 else if i = 1 then 12 else if i = 2 then 0 else if i = 3 then 4 else if i = 4 then 10 else 14,
+   by intro c hc; simp [containmentSeps] at hc; rcases hc with rfl | rfl <;> simp [Holds] <;> norm_num,
+   by intro c hc; simp [containmentSeps] at hc; rcases hc with rfl | rfl <;> simp [Holds] <;> norm_num,
+   by simp [Holds]; norm_num⟩
+
 /-! ### rectangle-based clusters (`RectangularCluster(rectIndex)`) -/
 
 /-- the fixed-rectangle equalities pin the cluster's boundary variables to the two sides of the
@@ -234,6 +265,12 @@ theorem fixedRect_members_inside (v rect : Nat) (half : Rat) (nodes : List (Nat 
   obtain ⟨e1, e2⟩ := fixedRect_sound v rect half a hf
   have := (containment_sound v 0 0 nodes children a hc).1 p hp
   constructor <;> linarith [this.1, this.2]
+
+-- non-vacuity of fixedRect_sound / fixedRect_members_inside: container node 1 (half 5) at 10, cluster vars 2,3, member node 0
+example : ∃ a : Asg, AllHold (fixedRectSeps 2 1 5) a ∧ AllHold (containmentSeps 2 0 0 [(0, 1)] []) a :=
+  ⟨fun i => if i = 0 then 9 else if i = 1 then 10 else if i = 2 then 5 else 15,
+   by intro c hc; simp [fixedRectSeps] at hc; rcases hc with rfl | rfl <;> simp [Holds] <;> norm_num,
+   by intro c hc; simp [containmentSeps] at hc; rcases hc with rfl | rfl <;> simp [Holds] <;> norm_num⟩
 
 theorem withinTol_iff (tol : Rat) (r b : Rect) : withinTol tol r b = true ↔ WithinTol tol r b := by
   unfold withinTol WithinTol
@@ -354,5 +391,12 @@ theorem noForeignInside_sound (tol : Rat) (rs : Array Rect) (members : List Nat)
     · exact h' h2
     · exact h' h3
     · exact h' h4
+
+-- non-vacuity of bbox_contains / boxesDisjoint_sound / noForeignInside_sound (in-range members)
+example : ∃ b1 b2, bbox #[⟨0, 1, 0, 1⟩, ⟨2, 3, 0, 1⟩, ⟨10, 11, 0, 1⟩] [0, 1] = some b1 ∧
+    bbox #[⟨0, 1, 0, 1⟩, ⟨2, 3, 0, 1⟩, ⟨10, 11, 0, 1⟩] [2] = some b2 ∧
+    boxesDisjoint 0 #[⟨0, 1, 0, 1⟩, ⟨2, 3, 0, 1⟩, ⟨10, 11, 0, 1⟩] [0, 1] [2] = true ∧
+    noForeignInside 0 #[⟨0, 1, 0, 1⟩, ⟨2, 3, 0, 1⟩, ⟨10, 11, 0, 1⟩] [0, 1] = true :=
+  ⟨⟨0, 3, 0, 1⟩, ⟨10, 11, 0, 1⟩, by decide +kernel, by decide +kernel, by decide +kernel, by decide +kernel⟩
 
 end AdaptaVerif.Props.C08
